@@ -49,7 +49,7 @@ SplitFrom(s, sep, i, start) ==
   ELSE IF SubSeq(s, i, i) = sep
        THEN <<SubSeq(s, start, i - 1)>> \o SplitFrom(s, sep, i + 1, i + 1)
        ELSE SplitFrom(s, sep, i + 1, start)
-Split(s, sep) == SplitFrom(s, sep, 1, 1)
+SplitStr(s, sep) == SplitFrom(s, sep, 1, 1)
 
 (* decimal value of a non-empty all-digit string, or -1 *)
 RECURSIVE DecFrom(_, _, _)
@@ -79,7 +79,7 @@ NoDup(seq) == \A i, j \in 1..Len(seq) : i # j => seq[i] # seq[j]
 (* ParseName(s) = [ok, pat, mods (sequence of [kind, n]), dh, cipher, hash] *)
 Bad == [ok |-> FALSE]
 ParseName(s) ==
-  LET parts == Split(s, "_") IN
+  LET parts == SplitStr(s, "_") IN
   IF Len(parts) # 5 THEN Bad
   ELSE IF parts[1] # "Noise" THEN Bad
   ELSE IF PatPrefixLens(parts[2]) = {} THEN Bad
@@ -87,7 +87,7 @@ ParseName(s) ==
   LET k    == MaxOf(PatPrefixLens(parts[2]))
       pat  == SubSeq(parts[2], 1, k)
       rest == SubSeq(parts[2], k + 1, Len(parts[2]))
-      mstr == IF rest = "" THEN <<>> ELSE Split(rest, "+")
+      mstr == IF rest = "" THEN <<>> ELSE SplitStr(rest, "+")
       mk   == [i \in 1..Len(mstr) |-> ModKind(mstr[i])]
       mods == [i \in 1..Len(mstr) |-> [kind |-> mk[i].kind, n |-> mk[i].n]]
   IN
